@@ -30,6 +30,32 @@ CHECKS = {
         "the yielded arrays must equal the reference boxes as a multiset (resp. in requested order) and the iteration must stop.",
    note="Tasks are atomic read-only units (checked in C12); the pool semantics are those of CPython 3.12 multiprocessing.pool modelled in kv/vpool.py.",
    tech="stateless schedule exploration (controlled scheduler) of the implementation against a reference model"),
+ "C04": dict(cat="fault_enumeration", design="4/C04",
+   text="Every corruption operator (delete / truncate / extend a binary file, insert or remove 8 bytes at every FAB boundary and "
+        "mid-payload with and without the matching offset shift, FAB header range / shift / component count, level-header index "
+        "line shifted / grown / deleted / unparsable / token dropped, FabOnDisk line deleted / offset +-1, mid-payload, EOF, beyond / "
+        "file name missing or other, Header box bounds moved / swapped / grown) is applied at every site of six base plotfiles "
+        "(2D/3D x single-file / multi-file / non-monotone layouts), singly and in pairs at distinct sites; for every mutant the "
+        "reference validator ref_bad decides whether the statement's conditions hold, and then Taster must raise in failing mode "
+        "and evaluate false without raising in non-failing mode, for limit in {None, 0} and with box coordinates.",
+   note="ref_bad is the statement taken literally including its leniency (last-four-token FAB header parse; third index tuple ignored); "
+        "mutants that are not ref_bad carry no demand. Quick tier restricts pairs to the same binary file.",
+   tech="exhaustive fault enumeration (every operator x site, singles and pairs) against a reference validator"),
+ "C05": dict(cat="model_checking", design="4/C05",
+   text="Colander.strain() is executed for 'all' and every non-empty ordered selection of distinct names (with an unknown name "
+        "inserted at every position) x every level limit on the C01 plotfile universe (2D/3D, every layout of one deviating level, "
+        "non-finite payloads); the output is parsed by the independent reader and compared with RefPlot.strain(): fields and order, "
+        "levels, time, geometry, boxes, bit-identical data per index range, token-exact restricted min/max rows, reference "
+        "validation, taste (default + coordinates), input digest unchanged.",
+   note="Controlled in-process pool with the identity schedule (schedules in C12).",
+   tech="bounded-exhaustive exploration of the implementation against a reference model"),
+ "C20": dict(cat="fault_enumeration", design="4/C20",
+   text="C04's mutant space extended with byte-level edits (offset text 007 / +7 / tabs, FAB header blanks, precision descriptor, "
+        "damaged or cut prefix, trailing whitespace). For every mutant that Taster(nofail) accepts, every box of every validated "
+        "level is read through pck[:][lv][b]: it must read without error, have the shape the level header declares x nfields and "
+        "equal the payload of a FAB in its file whose header names that range.",
+   note="Only accepted mutants carry a demand; candidates are found by an independent byte search of the binary file.",
+   tech="exhaustive fault enumeration (every operator x site, singles and pairs) with a differential validator/reader oracle"),
 }
 
 NOT_YET = {}
